@@ -490,6 +490,19 @@ func lifeSvcProps() map[string]interface{} {
 	return map[string]interface{}{"custom": "v", "utcOffset": -5, "ratio": -0.25, "zero": 0, "floor": -9007199254740991, "nested": map[string]interface{}{"delta": []interface{}{-1, 1, -1.5e-7, -1e21}}}
 }
 
+// at the level of the request builders an anchor origin is any JSON value: an object in the odd steps
+func aoValue(ao, t int) interface{} {
+	if ao == 0 {
+		return nil
+	}
+
+	if t%2 == 1 {
+		return map[string]interface{}{"origin": aoString(ao), "ledgers": []interface{}{"main", 2}}
+	}
+
+	return aoString(ao)
+}
+
 func aoString(ao int) string {
 	if ao == 0 {
 		return ""
@@ -540,7 +553,7 @@ func (e *lifeEnv) build(st *lStep, t int, did string, pre *lifeState, svcProps m
 			info.Type = "0001" // an entity type (request builders only)
 		}
 		if st.Ao != 0 {
-			info.AnchorOrigin = aoString(st.Ao)
+			info.AnchorOrigin = aoValue(st.Ao, t)
 		}
 
 		opts := []create.Option{create.WithMultiHashAlgorithm(alg), create.WithUpdatePublicKey(pubOf(st.Nu, "upd")),
@@ -661,7 +674,7 @@ func (e *lifeEnv) build(st *lStep, t int, did string, pre *lifeState, svcProps m
 			RecoveryCommitment: nextRec, UpdateCommitment: nextUpd, AnchorFrom: from, AnchorUntil: until, MultihashCode: alg,
 			Signer: librarySigner(sk), RevealValue: refReveal(jwkMap(sk.JWK), pendingAlg)}
 		if st.Ao != 0 {
-			info.AnchorOrigin = aoString(st.Ao)
+			info.AnchorOrigin = aoValue(st.Ao, t)
 		}
 
 		l1.req, l1.err = client.NewRecoverRequest(info)
@@ -759,6 +772,14 @@ func (e *lifeEnv) projectState(rm *protocol.ResolutionModel, maxKey int) (lPost,
 			p.Ao = atoi(m[1])
 		} else {
 			p.Ao = -1
+		}
+	case map[string]interface{}:
+		p.Ao = -1
+
+		if name, ok := ao["origin"].(string); ok {
+			if m := reOrig.FindStringSubmatch(name); m != nil && digestJSON(ao) == digestJSON(aoValue(atoi(m[1]), 1)) {
+				p.Ao = atoi(m[1])
+			}
 		}
 	default:
 		p.Ao = -1
@@ -898,6 +919,10 @@ func (e *lifeEnv) step(pre *lifeState, st *lStep, t int, want *lPost) lifeOutcom
 		wantAo := interface{}(nil)
 		if (st.Op == "create" || st.Op == "recover") && st.Ao != 0 {
 			wantAo = aoString(st.Ao)
+
+			if b.level == "request_builders" {
+				wantAo = aoValue(st.Ao, t)
+			}
 		}
 
 		if digestJSON(anch.AnchorOrigin) != digestJSON(wantAo) {
